@@ -379,27 +379,36 @@ func runC16(c *Ctx) {
 		}
 		// the head search is run on every path: a shortcut that returns before it ("no page points to
 		// another one, so there is no list") loses a free list of exactly one page, whose link is null
-		var scan *rangeLoop
-		for _, lp := range rangeLoopsOf(fn) {
-			lp := lp
-			if tb.T(lp.Slice).String() == tb.T(tail).String() && lp.Blocks()[head.Block()] {
-				scan = &lp
+		// the loop that searches: the test guarding the head store reads a tail-page mark; its loop header
+		// must lie on every path (any loop form: range over the marks, or a page-id counter)
+		var test *ssa.BasicBlock
+		for d := head.Block().Idom(); d != nil && test == nil; d = d.Idom() {
+			if iff := lastIf(d); iff != nil && strings.Contains(tb.T(iff.Cond).String(), tb.T(tail).String()) {
+				test = d
 			}
 		}
-		if scan == nil {
-			L.Undecided("R-C16-TWOPASS", "Tree.reinit#headscan", "the loop over the tail-page marks that picks the free-list head was not recognised", head.Pos())
+		var hdr *ssa.BasicBlock
+		if test != nil {
+			hdr = loopHeaderOf(test)
+		}
+		if hdr == nil {
+			L.Undecided("R-C16-TWOPASS", "Tree.reinit#headscan", "the loop that picks the free-list head (a test of a tail-page mark guarding the store to t.freePage) was not recognised", head.Pos())
 			return
 		}
-		inScan := func(in ssa.Instruction) bool { return in.Block() == scan.Hdr }
+		inScan := func(in ssa.Instruction) bool { return in.Block() == hdr }
 		if bad, path := mustPass(entryPos(fn), inScan, nil); bad != nil {
 			L.Fail("R-C16-TWOPASS", "Tree.reinit#headscan", "reinit can return without searching for the free-list head (block path "+pathString(path)+"): freePage stays 0 although NumPagesFree counted free pages, and the recycled pages are never reused", instrPos(bad))
 			return
 		}
-		// inside the scan: the first unmarked page is taken (no exit from the loop body other than after the head store)
+		// inside the scan: the first unmarked page is taken (no exit from the loop other than exhaustion or after the head store)
 		okExit := true
-		for b := range scan.Blocks() {
+		body := loopBodyOf(hdr)
+		for b := range body {
+			if b == hdr {
+				continue
+			}
 			for _, s2 := range b.Succs {
-				if s2 != scan.Hdr && !scan.Blocks()[s2] && !(b == head.Block() || head.Block().Dominates(b)) {
+				if !body[s2] && !(s2 == head.Block() || head.Block().Dominates(s2) || b == head.Block() || head.Block().Dominates(b)) {
 					okExit = false
 				}
 			}
